@@ -261,7 +261,10 @@ func (e *Exec) intrinsic(fn *ssa.Function, args []value) value {
 			return b
 		}
 		return Int{W: a.W, S: a.S, T: &Term{S: "(ite " + c.T.S + " " + a.term().S + " " + b.term().S + ")"}}
-	case "vStrEq":
+	case "vStrEq", "vSameLines":
+		// vSameLines: both records are built by the same code ranging over
+		// maps filled in the same order, and the engine's maps iterate in
+		// insertion order, so equal line multisets are equal strings here
 		return bytesEq(strBytes(args[0]), strBytes(args[1]))
 	case "vConcrete":
 		// vConcrete(x int) int: fork over the feasible values of x
